@@ -7,10 +7,10 @@ generated package: every `fix.Entry(...)` reference followed, by name, through t
 Reference semantics: `Spec/FixDict.lean` (`denote`: one class per `<field>`; entries = the container's elements with component
 references replaced in place, recursively, `required` from the element itself).  Guard: `wfDict` (ibid.).
 
-Known finding (DESIGN §6 #13, /verif/fixes/C16-fix42.md): no dictionary can be generated for `--fix-version 4.2`
-(`Witness/C16.lean`).  Every theorem below that speaks about a generated package therefore carries the explicit hypothesis
-`supportedVersion d.version` (4.4, 5.0, 5.0SP2) and is named `…_partial`; the full statements (same conclusion for every version
-the CLI offers, i.e. with `d.version ≠ .unknown` instead) are false of the unchanged tree exactly at 4.2.
+History: on the original tree no dictionary could be generated for `--fix-version 4.2` (DESIGN §6 #13, /verif/fixes/C16-fix42.md);
+repaired by /repo commit b154f58 (`Fix42Session`).  The theorems are now stated for every version the CLI offers: `wfDict d`
+contains "the version has a type table", which is exactly 4.2 / 4.4 / 5.0 / 5.0SP2 (`C16_wf_version`).  `Witness/C16.lean` keeps the
+former counterexample as a regression that must generate.
 Only property theorems and their non-vacuity examples live here.
 -/
 namespace NasdaqModel.Props.C16
@@ -22,14 +22,19 @@ def Pointwise {α β : Type} (R : α → β → Prop) : List α → List β → 
   | a :: as, b :: bs => R a b ∧ Pointwise R as bs
   | _, _ => False
 
-/-- FULL STATEMENT (false at version 4.2, see Witness.C16): `wfDict d → d.version ≠ .unknown → ∃ m L, gen d = ok m ∧ load m = ok L ∧ denote d = ok L`.
-    PROVED: the same with `supportedVersion d.version`.
-    The generated package imports, and what it defines — field classes, the Entries of header, trailer and every message body with
-    every reference followed to the class object, message classes, session class — is exactly the dictionary's meaning. -/
-theorem C16_imports_and_denotes_partial (d : Dict) (hwf : wfDict d = true) (hv : supportedVersion d.version = true) :
+/-- a valid dictionary is for one of the four versions the CLI offers -/
+theorem C16_wf_version (d : Dict) (hwf : wfDict d = true) : supportedVersion d.version = true := by
+  obtain ⟨types, w⟩ := wf_unpack hwf
+  have := w.htypes
+  cases hver : d.version <;> simp_all [supportedVersion, supportedTypes]
+
+/-- The generated package imports, and what it defines — field classes, the Entries of header, trailer and every message body with
+    every reference followed to the class object, message classes, session class — is exactly the dictionary's meaning.
+    Full strength: every valid dictionary of every version (4.2, 4.4, 5.0, 5.0SP2). -/
+theorem C16_imports_and_denotes (d : Dict) (hwf : wfDict d = true) :
     ∃ m L, gen d = .ok m ∧ load m = .ok L ∧ denote d = .ok L := by
   obtain ⟨types, w⟩ := wf_unpack hwf
-  obtain ⟨m, L, h1, h2, h3, _⟩ := genLoad_denote w hv
+  obtain ⟨m, L, h1, h2, h3, _⟩ := genLoad_denote w (C16_wf_version d hwf)
   exact ⟨m, L, h1, h2, h3⟩
 
 /-- one loaded field class per `<field>`, in order: name, tag = the number, value type = the version's class for the type name,
@@ -59,11 +64,11 @@ private theorem specFields_forall2 {types : TypeTable} : ∀ (fxs : List FieldXm
           cases h
           exact ⟨⟨rfl, h2, h1, rfl⟩, specFields_forall2 rest lfs2 h3⟩
 
-/-- FULL STATEMENT: as below for every version the CLI offers.  PROVED: for 4.4 / 5.0 / 5.0SP2. -/
-theorem C16_fields_partial (d : Dict) (hwf : wfDict d = true) (hv : supportedVersion d.version = true) :
+/-- a field class per `<field>` with the right tag, value type and enumerated values — every valid dictionary, every version -/
+theorem C16_fields (d : Dict) (hwf : wfDict d = true) :
     ∃ m L types, gen d = .ok m ∧ load m = .ok L ∧ supportedTypes d.version = .ok types ∧
       Pointwise (FieldMatches types) L.fields (d.sections.flatMap fieldsOf) := by
-  obtain ⟨m, L, hg, hl, hd⟩ := C16_imports_and_denotes_partial d hwf hv
+  obtain ⟨m, L, hg, hl, hd⟩ := C16_imports_and_denotes d hwf
   obtain ⟨types, ht, _, hf, _⟩ := denote_inv hd
   exact ⟨m, L, types, hg, hl, ht, specFields_forall2 _ _ hf⟩
 
@@ -89,28 +94,24 @@ private theorem specMessages_forall2 {d : Dict} {L : Loaded} : ∀ (ms : List Ms
         cases h
         exact ⟨⟨rfl, rfl, rfl, rfl, rfl, h1⟩, specMessages_forall2 rest lms2 h2⟩
 
-/-- FULL STATEMENT: as below for every version the CLI offers.  PROVED: for 4.4 / 5.0 / 5.0SP2.
+/-- Every valid dictionary, every version.
     Entries of header / body / trailer of the loaded classes = the dictionary's entries, components expanded in place (wherever
     they are declared), in order, with the required flags — including, at every depth, the entries of the group classes the
     references lead to (`LEntry.group … entries`). -/
-theorem C16_entries_partial (d : Dict) (hwf : wfDict d = true) (hv : supportedVersion d.version = true) :
+theorem C16_entries (d : Dict) (hwf : wfDict d = true) :
     ∃ m L, gen d = .ok m ∧ load m = .ok L ∧
       expand L.fields (allComps d) (d.sections.flatMap headerOf) = .ok L.header ∧
       expand L.fields (allComps d) (d.sections.flatMap trailerOf) = .ok L.trailer ∧
       Pointwise (MsgMatches d L) L.messages (d.sections.flatMap messagesOf) := by
-  obtain ⟨m, L, hg, hl, hd⟩ := C16_imports_and_denotes_partial d hwf hv
+  obtain ⟨m, L, hg, hl, hd⟩ := C16_imports_and_denotes d hwf
   obtain ⟨_, _, _, _, hh, ht, hm⟩ := denote_inv hd
   exact ⟨m, L, hg, hl, hh, ht, specMessages_forall2 _ _ hm⟩
 
-/-- FULL STATEMENT = PROVED STATEMENT (no version hypothesis: nothing is generated for 4.2).
-    In the generated groups module every group class mentioned by a group class is defined earlier, class names are unique, and
+/-- In the generated groups module every group class mentioned by a group class is defined earlier, class names are unique, and
     segment and message classes only mention group and field classes that exist. -/
 theorem C16_well_scoped (d : Dict) (hwf : wfDict d = true) (m : Module) (hg : gen d = .ok m) : wellScoped m = true := by
   obtain ⟨types, w⟩ := wf_unpack hwf
-  obtain ⟨sess, hs⟩ := gen_ok_version hg
-  have hv : supportedVersion d.version = true := by
-    cases hver : d.version <;> simp_all [supportedVersion, clientSession]
-  obtain ⟨m', L, hg', hl, _, hnd⟩ := genLoad_denote w hv
+  obtain ⟨m', L, hg', hl, _, hnd⟩ := genLoad_denote w (C16_wf_version d hwf)
   rw [hg] at hg'
   cases hg'
   exact load_wellScoped hl hnd
@@ -245,16 +246,16 @@ private theorem pointwise_mem {α β : Type} {R : α → β → Prop} : ∀ {as 
     · obtain ⟨b, hb, hr⟩ := pointwise_mem h.2 a ha
       exact ⟨b, by simp [hb], hr⟩
 
-/-- FULL STATEMENT: as below for every version the CLI offers.  PROVED: for 4.4 / 5.0 / 5.0SP2.
+/-- Every valid dictionary, every version.
     Every group container reached from a header, trailer or body entry — at any nesting depth — has as its count class a field
     class of the package: the one declared under the group's name, of an integer type (so that `CountCls.from_value(len(…))`
     is defined). -/
-theorem C16_groups_wired_partial (d : Dict) (hwf : wfDict d = true) (hv : supportedVersion d.version = true) :
+theorem C16_groups_wired (d : Dict) (hwf : wfDict d = true) :
     ∃ m L, gen d = .ok m ∧ load m = .ok L ∧
       groupsAllL (countOk L.fields) L.header = true ∧ groupsAllL (countOk L.fields) L.trailer = true ∧
       ∀ lm ∈ L.messages, groupsAllL (countOk L.fields) lm.body = true := by
   obtain ⟨types, w⟩ := wf_unpack hwf
-  obtain ⟨m, L, hg, hl, hd, _⟩ := genLoad_denote w hv
+  obtain ⟨m, L, hg, hl, hd, _⟩ := genLoad_denote w (C16_wf_version d hwf)
   obtain ⟨types', ht', _, hf, hh, ht, hm⟩ := denote_inv hd
   have : types' = types := by
     have := w.htypes
@@ -307,8 +308,7 @@ theorem C16_type_tables :
 /-! ### non-vacuity: a dictionary with a forward-referenced component chain, groups within groups within components,
     a group name used in two messages, keyword descriptions -/
 
-def exDict : Dict :=
-  ⟨.v44, [
+def exSections (countType : Str) : List Section := [
     .header [.field (lit "BeginString") (some (lit "Y")), .comp (lit "Hop") (some (lit "N"))],
     .messages [
       ⟨lit "Order", lit "D", lit "app", [.comp (lit "Legs") none, .field (lit "Side") (some (lit "Y"))]⟩,
@@ -320,13 +320,18 @@ def exDict : Dict :=
       ⟨lit "Nested", [.group (lit "NoNested") none [.field (lit "Px") (some (lit "N"))]]⟩],
     .fields [
       ⟨lit "8", lit "BeginString", lit "STRING", []⟩, ⟨lit "10", lit "CheckSum", lit "STRING", []⟩,
-      ⟨lit "555", lit "NoLegs", lit "NUMINGROUP", []⟩, ⟨lit "600", lit "LegSymbol", lit "STRING", []⟩,
+      ⟨lit "555", lit "NoLegs", countType, []⟩, ⟨lit "600", lit "LegSymbol", lit "STRING", []⟩,
       ⟨lit "54", lit "Side", lit "CHAR", [⟨lit "1", lit "None"⟩, ⟨lit "2", lit "SELL"⟩]⟩,
-      ⟨lit "539", lit "NoNested", lit "NUMINGROUP", []⟩, ⟨lit "44", lit "Px", lit "PRICE", []⟩,
-      ⟨lit "627", lit "NoHops", lit "NUMINGROUP", []⟩, ⟨lit "628", lit "HopID", lit "STRING", []⟩]]⟩
+      ⟨lit "539", lit "NoNested", countType, []⟩, ⟨lit "44", lit "Px", lit "PRICE", []⟩,
+      ⟨lit "627", lit "NoHops", countType, []⟩, ⟨lit "628", lit "HopID", lit "STRING", []⟩]]
+
+def exDict : Dict := ⟨.v44, exSections (lit "NUMINGROUP")⟩
 
 example : wfDict exDict = true := by decide
-example : supportedVersion exDict.version = true := by decide
+/-- the same dictionary read as FIX 4.2 (NUMINGROUP is not a 4.2 type name: the count fields are INT there) -/
+def exDict42 : Dict := ⟨.v42, exSections (lit "INT")⟩
+example : wfDict exDict42 = true := by decide
+example : (genLoad exDict42).toOption.map (·.session) = some .Fix42Session := by decide
 /-- the nested group of `Legs` is generated twice (`NoNested_1`, `NoNested_2`), `NoLegs` three times -/
 example : (gen exDict).toOption.map (fun m => m.groups.map (·.uname)) =
     some [lit "NoNested_1", lit "NoNested_2", lit "NoLegs_1", lit "NoLegs_2", lit "NoHops_1"] := by decide
